@@ -130,6 +130,19 @@ Check C07_marker_as_written :
     Forall2 (fun rv d => d_incomparable d = existsb (fun m => meta1_is m "incomparable") (metas_of (rv_attrs rv))) rvs vs.
 Print Assumptions C07_marker_as_written.
 
+(* the item-level marker of an accepted enum: set iff one of the item's own single-option attributes is `incomparable` *)
+Theorem C07_item_marker_as_written :
+  forall (c : cfg) (r : raw_item) (i : input) rvs disc id inc vs,
+    from_input c r = Ok i -> ri_kind r = KEnum rvs -> in_item i = IEnum disc id inc vs ->
+    inc = existsb (fun m => meta1_is m "incomparable") (singles (ri_attrs r)).
+Proof. exact accepted_enum_item_marker. Qed.
+
+Check C07_item_marker_as_written :
+  forall (c : cfg) (r : raw_item) (i : input) rvs disc id inc vs,
+    from_input c r = Ok i -> ri_kind r = KEnum rvs -> in_item i = IEnum disc id inc vs ->
+    inc = existsb (fun m => meta1_is m "incomparable") (singles (ri_attrs r)).
+Print Assumptions C07_item_marker_as_written.
+
 Example C07_nonvacuous :
   exists i, from_input cfg_default ex_inc = Ok i /\
     incomparable_value (in_item i) (mkValue 1 ([] : list nat)) = true /\
